@@ -5,3 +5,7 @@ import SwhVerif.Props.C18
 #print axioms Swh.C18.verify_exit_iff
 #print axioms Swh.C18.flags_do_not_change_object
 #print axioms Swh.C18.cli_params
+#print axioms Swh.C18.many_single
+#print axioms Swh.C18.many_verify_needs_one
+#print axioms Swh.C18.takeUntilError_of_no_error
+#print axioms Swh.C18.many_prints_each
